@@ -154,4 +154,20 @@ BENIGN += [
     ("fidget-wgpu/src/shaders/interval_ops.wgsl", "    let ab = lhs.v * rhs.v;\n    let cd = lhs.v.yx * rhs.v;\n    return Value(vec2f(\n        min(min(ab[0], ab[1]), min(cd[0], cd[1])),\n        max(max(ab[0], ab[1]), max(cd[0], cd[1])),\n    ));\n}\n\nfn op_div", "    let cross = lhs.v.yx * rhs.v;\n    let same = lhs.v * rhs.v;\n    return Value(vec2f(\n        min(min(same.x, same.y), min(cross.x, cross.y)),\n        max(max(cross[0], cross[1]), max(same[0], same[1])),\n    ));\n}\n\nfn op_div", "WGSL op_mul: rename, reorder the lets, .x/.y for [0]/[1], commuted max"),
     ("fidget-wgpu/src/shaders/interval_ops.wgsl", "fn op_neg(lhs: Value) -> Value {\n    return Value(-lhs.v.yx);\n}", "fn op_neg(lhs: Value) -> Value {\n    // negation swaps the bounds\n    let flipped = lhs.v.yx;\n    return Value(vec2f(-flipped.x, -flipped.y));\n}", "WGSL op_neg: lanes written out"),
     ("fidget-wgpu/src/shaders/tape_interpreter.wgsl", "            case OP_COPY:    { tmp = lhs; }\n            case OP_NEG:     { tmp = op_neg(lhs); }", "            case OP_NEG:     { tmp = op_neg(lhs); }\n            case OP_COPY:    { tmp = lhs; }", "WGSL decoder: reorder two cases"),
+    # ---- aarch64 assemblers (not compiled on this host; edits checked by reading) --------------------------
+    ("fidget-jit/src/aarch64/point.rs", [
+        (("nth", 0, "            ; ldrb w14, [x1]\n            ; fcmp S(reg(lhs_reg)), S(reg(rhs_reg))\n            ; b.mi 20 // -> RHS\n            ; b.gt 32 // -> LHS\n\n            // Equal or NaN; do the comparison to collapse NaNs\n            ; fmax S(reg(out_reg)), S(reg(lhs_reg)), S(reg(rhs_reg))\n            ; orr w14, w14, CHOICE_BOTH\n            ; b 32 // -> end\n\n            // RHS\n            ; fmov S(reg(out_reg)), S(reg(rhs_reg))\n            ; orr w14, w14, CHOICE_RIGHT\n            ; strb w14, [x2, 0] // write a non-zero value to simplify\n            ; b 16\n\n            // LHS\n            ; fmov S(reg(out_reg)), S(reg(lhs_reg))\n            ; orr w14, w14, CHOICE_LEFT\n            ; strb w14, [x2, 0] // write a non-zero value to simplify\n            // fall-through to end\n\n            // <- end\n            ; strb w14, [x1], 1 // post-increment"),
+         "            ; ldrb w13, [x1]\n            ; fcmp S(reg(lhs_reg)), S(reg(rhs_reg))\n            ; b.mi 20 // -> RHS\n            ; b.gt 32 // -> LHS\n\n            // Equal or NaN; do the comparison to collapse NaNs\n            ; fmax S(reg(out_reg)), S(reg(lhs_reg)), S(reg(rhs_reg))\n            ; orr w13, w13, CHOICE_BOTH\n            ; b 32 // -> end\n\n            // RHS\n            ; fmov S(reg(out_reg)), S(reg(rhs_reg))\n            ; orr w13, w13, CHOICE_RIGHT\n            ; strb w13, [x2, 0] // write a non-zero value to simplify\n            ; b 16\n\n            // LHS\n            ; fmov S(reg(out_reg)), S(reg(lhs_reg))\n            ; orr w13, w13, CHOICE_LEFT\n            ; strb w13, [x2, 0] // write a non-zero value to simplify\n            // fall-through to end\n\n            // <- end\n            ; strb w13, [x1], 1 // post-increment"),
+    ], None, "aarch64 point max: the choice byte lives in w13 instead of w14"),
+    ("fidget-jit/src/aarch64/point.rs", ("nth", 0, "            ; ldrb w14, [x1]\n            ; fcmp S(reg(lhs_reg)), S(reg(rhs_reg))\n            ; b.mi 20 // -> RHS"), "            ; fcmp S(reg(lhs_reg)), S(reg(rhs_reg))\n            ; ldrb w14, [x1]\n            ; b.mi 20 // -> RHS", "aarch64 point max: load the choice byte after the compare (a load does not touch the flags)"),
+    ("fidget-jit/src/aarch64/interval.rs", "            ; zip2 v4.s2, V(reg(lhs_reg)).s2, V(reg(rhs_reg)).s2\n            ; zip1 v5.s2, V(reg(rhs_reg)).s2, V(reg(lhs_reg)).s2\n\n            // v5 = [rhs.lower > lhs.upper, lhs.lower > rhs.upper]\n            ; fcmgt v5.s2, v5.s2, v4.s2\n            ; fmov x15, d5\n            ; ldrb w14, [x1]\n\n            ; tst x15, 0x1_0000_0000\n            ; b.ne 28 // -> rhs", "            ; zip2 v6.s2, V(reg(lhs_reg)).s2, V(reg(rhs_reg)).s2\n            ; zip1 v7.s2, V(reg(rhs_reg)).s2, V(reg(lhs_reg)).s2\n\n            // v7 = [rhs.lower > lhs.upper, lhs.lower > rhs.upper]\n            ; fcmgt v7.s2, v7.s2, v6.s2\n            ; fmov x15, d7\n            ; ldrb w14, [x1]\n\n            ; tst x15, 0x1_0000_0000\n            ; b.ne 28 // -> rhs", "aarch64 interval min: other scratch registers (v6 / v7)"),
+    ("fidget-jit/src/aarch64/float_slice.rs", "        dynasm!(self.0.ops ; mov V(reg(out_reg)).b16, V(reg(lhs_reg)).b16)\n    }\n    fn build_neg", "        dynasm!(self.0.ops ; orr V(reg(out_reg)).b16, V(reg(lhs_reg)).b16, V(reg(lhs_reg)).b16)\n    }\n    fn build_neg", "aarch64 float-slice copy: `mov Vd, Vn` spelled as the `orr Vd, Vn, Vn` it is an alias of"),
+    ("fidget-jit/src/aarch64/float_slice.rs", "            ; fmov s7, 1.0\n            ; dup v7.s4, v7.s[0]\n            ; fdiv V(reg(out_reg)).s4, v7.s4, V(reg(lhs_reg)).s4", "            ; fmov s6, 1.0\n            ; dup v6.s4, v6.s[0]\n            ; fdiv V(reg(out_reg)).s4, v6.s4, V(reg(lhs_reg)).s4", "aarch64 float-slice recip: the constant lives in v6"),
+    ("fidget-jit/src/aarch64/interval.rs", [
+        (("nth", 0, "            ; stp d16, d17, [sp, 0x50]\n            ; stp d18, d19, [sp, 0x60]"), "            ; stp d18, d19, [sp, 0x60]\n            ; stp d16, d17, [sp, 0x50]"),
+        (("nth", 0, "            ; ldp d16, d17, [sp, 0x50]\n            ; ldp d18, d19, [sp, 0x60]"), "            ; ldp d18, d19, [sp, 0x60]\n            ; ldp d16, d17, [sp, 0x50]"),
+    ], None, "aarch64 interval call_fn_unary: two independent saves / restores in the other order"),
+    ("fidget-jit/src/aarch64/grad_slice.rs", ("nth", 0, "            ; mov x20, x0\n            ; mov x21, x1\n            ; mov x22, x2\n            ; mov x23, x3\n\n            // We use registers v8-v15"), "            ; mov x23, x3\n            ; mov x22, x2\n            ; mov x21, x1\n            ; mov x20, x0\n\n            // We use registers v8-v15", "aarch64 grad call_fn_unary: pointer backups in the other order"),
+    ("fidget-jit/src/aarch64/grad_slice.rs", "            ; fcmp S(reg(lhs_reg)), 0.0\n            ; b.lt 12 // -> neg\n            // Happy path: v >= 0, so we just copy the register\n            ; mov V(reg(out_reg)).b16, V(reg(lhs_reg)).b16\n            ; b 8 // -> end\n            // neg:\n            ; fneg V(reg(out_reg)).s4, V(reg(lhs_reg)).s4", "            ; fcmp S(reg(lhs_reg)), 0.0\n            ; b.lt 16 // -> neg\n            // Happy path: v >= 0, so we just copy the register\n            ; nop\n            ; mov V(reg(out_reg)).b16, V(reg(lhs_reg)).b16\n            ; b 8 // -> end\n            // neg:\n            ; fneg V(reg(out_reg)).s4, V(reg(lhs_reg)).s4", "aarch64 grad abs: a nop inserted with the branch offset adjusted"),
+    ("fidget-jit/src/aarch64/point.rs", "        dynasm!(self.0.ops ; fmov S(reg(out_reg)), S(reg(lhs_reg)))", "        dynasm!(self.0.ops ; mov V(reg(out_reg)).b8, V(reg(lhs_reg)).b8)", "aarch64 point copy moves eight bytes (the value is the low four)"),
 ]
